@@ -219,6 +219,7 @@ func init() {
 		sc.Visit = exportImport(sc)
 		sc.VisitPure = true
 		rich := c15Rich()
+		many := c15Many()
 		return &Check{ID: "C15",
 			Runs: []Run{{S: sc, Opt: map[Tier]Options{
 				Quick:    {Depth: 2, Budget: 150 * time.Second, ReplayEvery: 16},
@@ -226,6 +227,9 @@ func init() {
 			}}, {S: rich, Opt: map[Tier]Options{
 				Quick:    {Depth: 2, Budget: 150 * time.Second, ReplayEvery: 16},
 				Thorough: {Depth: 4, Budget: 30 * time.Minute, ReplayEvery: 32, MaxStates: 60000},
+			}}, {S: many, Opt: map[Tier]Options{
+				Quick:    {Depth: 1, Budget: 100 * time.Second, ReplayEvery: 4},
+				Thorough: {Depth: 2, Budget: 20 * time.Minute, ReplayEvery: 8, MaxStates: 60000},
 			}}},
 			Owns: ownsAny("genesis."),
 			Extra: func(t Tier, ev *Evidence) []Violation {
@@ -321,5 +325,62 @@ func c15Rich() *Scenario {
 	)
 	s.VisitPure = true
 	s.Visit = exportImport(s, "wait(1s)", "wrec(W1,#1,next)", "wrec(W2,#2,next)", "brec(W1,#1)", "brec(W2,#2)", "topup(A->R1,65nund)", "claim(R1<-B)#", "wrec(P1,#3,1,fee2)")
+	return s
+}
+
+// c15Many: more entities than any page size or list cap in the code base (105 WRKChains and BEACONs over
+// three owners, 105 purchase orders, 105 streams), one chain and one beacon with more records than
+// their limit; export/import on the state the prefix ends in and on its successors.
+func c15Many() *Scenario {
+	accts := []mc.AcctSpec{{Name: "S1", Coins: Coins(1000, 0)}, {Name: "P1", Coins: Rich()}}
+	for _, n := range []string{"W1", "W2", "W3", "A", "B"} {
+		accts = append(accts, mc.AcctSpec{Name: n, Coins: Rich()})
+	}
+	g := BaseGenesis(accts...)
+	g.Whitelist = []string{"P1"}
+	s := &Scenario{Name: "genesis-many", Genesis: g, KeyTimeNs: false, VisitAfterPrefix: true, VisitPure: true}
+	ms := time.Millisecond
+	const n = 105
+	owners := []string{"W1", "W2", "W3"}
+	pre := func(a Action) {
+		a.PrefixOnly, a.Enabled = true, nil
+		s.Actions = append(s.Actions, a)
+		s.Prefix = append(s.Prefix, a.Name)
+	}
+	// seven registrations, orders and streams per block
+	for i := 0; i < n; i += 7 {
+		i := i
+		pre(Action{Name: fmt.Sprintf("register+raise+create[%d..%d]", i+1, i+7), Dt: ms, Txs: func(m *model.State) []model.Tx {
+			var txs []model.Tx
+			for j := i; j < i+7 && j < n; j++ {
+				o := owners[j%3]
+				txs = append(txs,
+					model.Tx{Msgs: []model.Msg{{Kind: model.WrkReg, From: o, S: []string{fmt.Sprintf("chain-%d", j+1), fmt.Sprintf("Chain %d", j+1), "0xgen", "geth"}}}, Fee: fee(m.Wrk.P.FeeReg)},
+					model.Tx{Msgs: []model.Msg{{Kind: model.BcnReg, From: o, S: []string{fmt.Sprintf("beacon-%d", j+1), fmt.Sprintf("Beacon %d", j+1)}}}, Fee: fee(m.Bcn.P.FeeReg)},
+					model.Tx{Msgs: []model.Msg{{Kind: model.EntRaise, From: "P1", Den: mc.Nund, Amt: fmt.Sprint(j + 1)}}},
+					model.Tx{Msgs: []model.Msg{{Kind: model.StrCreate, From: "A", To: fmt.Sprintf("L20:r%d", j+1), Den: mc.Nund, Amt: "6000", Rate: 1}}},
+				)
+			}
+			return txs
+		}})
+	}
+	next := func(l uint64) uint64 { return l + 1 }
+	w1, b1 := wrecAct("wrec(W2,#104,next)", "W2", 104, next), brecAct("brec(W2,#104)", "W2", 104)
+	s.Actions = append(s.Actions, w1, b1)
+	s.Prefix = append(s.Prefix, w1.Name, b1.Name, w1.Name, b1.Name, w1.Name, b1.Name)
+	pre(decide("S1", 103, 2))
+	pre(decide("S1", 104, 3))
+	pre(decide("S1", 105, 2))
+	s.Actions = append(s.Actions,
+		Action{Name: "wait(1s)", Dt: time.Second, Enabled: func(m *model.State, _ map[string]int) bool { return elapsed(m) < 30 }},
+		wrecAct("wrec(W3,#105,next)", "W3", 105, next), brecAct("brec(W3,#105)", "W3", 105),
+		wrecAct("wrec(W2,#101,next)", "W2", 101, next), brecAct("brec(W2,#101)", "W2", 101),
+		Action{Name: "cancel(A->L20:r105)", Dt: ms, Txs: tx1(model.Msg{Kind: model.StrCancel, From: "A", To: "L20:r105"})},
+		decide("S1", 101, 2),
+	)
+	for j := 0; j < n; j++ {
+		s.Tracked = append(s.Tracked, fmt.Sprintf("L20:r%d", j+1))
+	}
+	s.Visit = exportImport(s)
 	return s
 }
